@@ -12,6 +12,22 @@ CHECKS = {
   note="Trusted: the map model (40 lines), reflection-based dump of representations. Bounded by depth and the position alphabet; bits above 210 are not observed."),
 }
 
+CHECKS["C18"] = dict(
+  category="model_checking", engine="E4-enum", design_ref="3/C18",
+  technique="exhaustive enumeration of regex ASTs x all spans of all short strings, matched by the real regex engine in anchored context",
+  text="Every regex AST up to size 4 over the payload-filter grammar (literals, classes, ., anchors, \\b, case folding, greedy/lazy/counted repetition, groups, alternation incl. empty alternatives; de-duplicated by compiled program) is analysed by the real AcceptedLength/ConstantSuffix and compared with ground truth obtained by matching ^(?s:.{i})(?:re)(?s:.{n-j})$ on every span of every string up to length 5 (thorough 6) over {a,b,A,\\n}: every matching span lies in [Min,Max], ends with the suffix, and Min/finite Max are attained for assertion-free regexes.",
+  note="Trusted: rsc.io/binaryregexp as matcher. Bounded by AST size, string length and alphabet; attainment is not demanded when the regex contains empty-width assertions.")
+CHECKS["C03"] = dict(
+  category="model_checking", engine="E4-enum+workers", design_ref="3/C03",
+  technique="exhaustive enumeration of expression trees, real parser/normaliser vs reference evaluator on a product universe of abstract streams, in watchdog-supervised worker processes",
+  text="All expression trees of the stated families (1-3 leaves quick, up to 4 thorough; AND/OR/THEN/NOT; 57-atom alphabet covering every filter kind, lists, ranges, own-variable arithmetic, masks, all tag kinds, data filters) are printed with explicit parentheses, parsed by query.Parse, and the resulting ConditionsSet is evaluated by a direct evaluator of the condition structs on EVERY record of the product of the field groups the atoms read (every combination of truth values that is realisable, every payload layout of 14 chunk orders) and compared with the evaluation of the AST as written; 'matches nothing' must imply the AST is unsatisfiable on the universe.",
+  note="Reference semantics of THEN over groups from the in-app help (DESIGN 7a); trees with negation below THEN and trees whose negation is exponential by construction are excluded and counted; sub-queries excluded; the condition-struct evaluator is bound to the engine by C02.")
+CHECKS["C19"] = dict(
+  category="model_checking", engine="E4-enum+interleavings", design_ref="3/C19",
+  technique="exhaustive enumeration of raw request targets against the real router plus all order-preserving interleavings of split concurrent uploads, file-tree snapshot oracle",
+  text="Every sequence of <=3 (thorough <=4) path tokens over a 19-token alphabet (dot segments, encoded separators, backslashes, NUL, odd suffixes, existing and canary names; joined with / and with nothing) is sent as a raw request line to the real chi router (setupRouter compiled from /repo through an overlay test binary) for upload and download, twice; after every request the whole scratch tree is snapshotted and compared: only new regular files inside pcap/, never a modified file, downloads only serve files inside pcap/, duplicate uploads fail, a 2xx upload is queued exactly once (observed through the processed-pcap webhook after a goroutine-level quiescence barrier). All order-preserving merges of the steps of two same-name uploads (also aborted ones) and upload-vs-download are executed under harness-controlled body delivery.",
+  note="Trusted: net/http, chi. Request bodies are split in 2 (thorough 3) pieces; the overlay only adds a _test.go file and a web/dist stub.")
+
 NOT_YET = {}
 
 def main():
@@ -49,6 +65,7 @@ def main():
             "add_only": True,
         },
         "engines": [
+            {"name": "E4-enum", "path": "harness/mc/par.go, harness/mc/shard.go", "kind_free_text": "exhaustive enumeration of a bounded input space (all ASTs / token sequences / deviations up to a bound), every case run on the real code and on a reference model; optionally in supervised worker processes so hangs, crashes and memory blow-ups are attributed to a case"},
             {"name": "E1-bfs", "path": "harness/mc/bfs.go", "kind_free_text": "explicit-state breadth-first search over operation sequences on the real object, successor = fresh object + replay + 1 op, canonical-state dedup, reference model compared after every transition"},
         ],
         "checks": checks,
